@@ -227,10 +227,13 @@ def main():
     wall = time.time() - ctx.t0
     n_thm = len(mod.THEOREMS)
     n_ok = len([t for t in mod.THEOREMS if t in axioms or any(k.endswith(t.split('.')[-1]) for k in axioms)])
-    ev = dict(property_id=a.pid, tier=a.tier, seed=seed, level='proof',
+    level = 'proof' if n_ok >= 1 else 'other'
+    ev = dict(property_id=a.pid, tier=a.tier, seed=seed, level=level,
               coverage=dict(obligations=max(1, n_thm), discharged=n_ok,
                             checker_cmd='cd lean && lake build %s && lake env lean <#print axioms of the registry theorems>' % ' '.join(mod.LEAN_MODULES),
                             trusted_base=mod.TRUSTED,
+                            explanation=('kernel-checked theorems + correspondence + failing-input search' if n_ok >= 1 else
+                                         'the proof obligations of this property no longer check on this tree (see breaks); only the search ran'),
                             theorems=[dict(name=t, axioms=axioms.get(t)) for t in mod.THEOREMS],
                             evaluations=int(ctx.stats.get('evaluations', 0)),
                             distinct_nontrivial=int(ctx.stats.get('distinct_nontrivial', 0)),
